@@ -2,6 +2,8 @@ CONSTANTS
   CacheKeyedByNameOnly = TRUE
   ContentCacheByFile = FALSE
   ResultsAliased = FALSE
+  GetMemberRewinds = FALSE
+  LazyScanDiesOnFault = FALSE
   EmitH = FALSE
 SPECIFICATION Spec
 INVARIANT CacheCoherent
